@@ -15,7 +15,7 @@ git apply $OUT/patch.diff
 go build ./... ; b=$?
 go test -mod=mod -vet=off -count=1 -timeout 25m ./... > /tmp/seed/$NAME.suite.log 2>&1; s=$?
 ( eval "$DEMO" ) > /tmp/seed/$NAME.patch.log 2>&1; rc1=$?
-git clean -fdq
+git checkout -q -- . ; git clean -fdq; git apply $OUT/patch.diff   # re-apply: the patch may add new files that the clean-up removes
 echo "builds=$b suite=$s demo_without_patch=$rc0 demo_with_patch=$rc1"
 # our check against the patched tree
 TIER=${TIER:-quick}
